@@ -501,6 +501,22 @@ def _scaled_constant_columns(self, tier, seed):
                 col = np.asarray(container.matrix)[..., list(container.clp_labels).index(f"{lab}_baseline")]
                 if not np.array_equal(col, np.full(col.shape, want[lab])):
                     bad = bad or {"declaration_order": order, "evaluation": rep, "dataset": lab, "baseline_column": np.unique(col).tolist(), "expected": want[lab]}
+    # the clp-guide megacomplex: one cell, scaled per dataset
+    from glotaran.builtin.megacomplexes.clp_guide import ClpGuideMegacomplex
+
+    MG = Model.create_class_from_megacomplexes([ClpGuideMegacomplex])
+    for order in (("g1", "g2"), ("g2", "g1")):
+        gsets = {"g1": {"megacomplex": ["mg1"], "megacomplex_scale": ["sc.2"]}, "g2": {"megacomplex": ["mg2"], "megacomplex_scale": ["sc.3"]}}
+        gmodel = MG(megacomplex={"mg1": {"type": "clp-guide", "dimension": "time", "target": "s1"}, "mg2": {"type": "clp-guide", "dimension": "time", "target": "s2"}}, dataset={k: gsets[k] for k in order})
+        gwant = {"g1": ("s1", 3.0), "g2": ("s2", 0.25)}
+        for rep in range(3):
+            for lab in order:
+                n += 1
+                dm = fill_item(gmodel.dataset[lab], gmodel, pars)
+                container = MatrixProvider.calculate_dataset_matrix(dm, np.array([0.0]), np.array([0.0]))
+                got = np.asarray(container.matrix).reshape(-1)
+                if list(container.clp_labels) != [gwant[lab][0]] or not np.array_equal(got, [gwant[lab][1]]):
+                    bad = bad or {"declaration_order": order, "evaluation": rep, "dataset": lab, "clp_guide_column": got.tolist(), "labels": list(container.clp_labels), "expected": gwant[lab]}
     return [{"name": "bounded_constant_columns_carry_their_own_scale_at_every_evaluation", "ok": bad is None and n > 0, "case": f"{n} dataset matrices (3 declaration orders x 3 evaluations x 3 datasets)", "function": "glotaran.optimization.matrix_provider:MatrixProvider.calculate_dataset_matrix", "witness": bad, "detail": "bounded stand-in: repeated native evaluation of builtin megacomplexes"}]
 
 
